@@ -175,6 +175,38 @@ func genPubSubOp(t *rapid.T, nsess int, strict bool) Op {
 	}
 }
 
+// psGen threads a little state through the generation of one history so that
+// most publications hit at least one subscription (it only steers draws).
+type psGen struct {
+	nsess  int
+	strict bool
+	subs   []gReg // uri + class of subscriptions probably made so far
+}
+
+func (g *psGen) topicFor(t *rapid.T) string {
+	if len(g.subs) > 0 && pct(t, 70, "hit") {
+		r := g.subs[uni(t, len(g.subs), "whichsub")]
+		tmp := rpcGen{}
+		return tmp.uriFor(t, &r)
+	}
+	return genTopic(t)
+}
+
+func (g *psGen) op(t *rapid.T) Op {
+	op := genPubSubOp(t, g.nsess, g.strict)
+	switch op.K {
+	case "subscribe":
+		if v, _ := modelValidURI(op.URI, g.strict, op.Mode); v {
+			g.subs = append(g.subs, gReg{uri: op.URI, class: policyClass(op.Mode)})
+		}
+	case "publish":
+		if v, _ := modelValidURI(op.URI, g.strict, ""); v {
+			op.URI = g.topicFor(t)
+		}
+	}
+	return op
+}
+
 func genC01(t *rapid.T) *Case {
 	strict := rapid.Bool().Draw(t, "strict")
 	rla := rapid.Bool().Draw(t, "requireLocalAuth")
@@ -186,8 +218,8 @@ func genC01(t *rapid.T) *Case {
 		// catch-all observer: prefix "" subscription made right at the start.
 		c.Ops = append(c.Ops, Op{K: "subscribe", S: 0, URI: "", Mode: "prefix"})
 	}
-	nsess := len(c.Sess)
-	ops := rapid.SliceOfN(rapid.Custom(func(t *rapid.T) Op { return genPubSubOp(t, nsess, strict) }), 1, 40).Draw(t, "ops")
+	g := &psGen{nsess: len(c.Sess), strict: strict}
+	ops := rapid.SliceOfN(rapid.Custom(func(t *rapid.T) Op { return g.op(t) }), 1, 40).Draw(t, "ops")
 	c.Ops = append(c.Ops, ops...)
 	return c
 }
